@@ -1117,6 +1117,52 @@ func (x *xl) emitFunc(s *fsig) string {
 	return b.String()
 }
 
+// codecShape lists, per function of currency_gen.go, the members of package msgp it mentions (source order)
+func codecShape(path string) string {
+	fset := token.NewFileSet()
+	file, err := parser.ParseFile(fset, path, nil, 0)
+	if err != nil {
+		fmt.Fprintln(os.Stderr, "xlate:", err)
+		os.Exit(1)
+	}
+	var sb strings.Builder
+	sb.WriteString("/-- currency_gen.go: the msgp members each codec method uses, in source order -/\ndef codecCalls : List (String × List String) := [")
+	first := true
+	for _, d := range file.Decls {
+		fd, ok := d.(*ast.FuncDecl)
+		if !ok || fd.Body == nil {
+			continue
+		}
+		name := fd.Name.Name
+		if fd.Recv != nil && len(fd.Recv.List) == 1 {
+			switch t := fd.Recv.List[0].Type.(type) {
+			case *ast.Ident:
+				name = t.Name + "." + name
+			case *ast.StarExpr:
+				if id, ok := t.X.(*ast.Ident); ok {
+					name = "*" + id.Name + "." + name
+				}
+			}
+		}
+		var uses []string
+		ast.Inspect(fd.Body, func(n ast.Node) bool {
+			if sel, ok := n.(*ast.SelectorExpr); ok {
+				if id, ok := sel.X.(*ast.Ident); ok && id.Name == "msgp" {
+					uses = append(uses, fmt.Sprintf("%q", sel.Sel.Name))
+				}
+			}
+			return true
+		})
+		if !first {
+			sb.WriteString(", ")
+		}
+		first = false
+		fmt.Fprintf(&sb, "(%q, [%s])", name, strings.Join(uses, ", "))
+	}
+	sb.WriteString("]\n\n")
+	return sb.String()
+}
+
 type fakeImporter struct{ def types.Importer }
 
 func (f fakeImporter) Import(p string) (*types.Package, error) {
@@ -1326,6 +1372,9 @@ func main() {
 	for _, n := range sk {
 		fmt.Fprintf(&b, "-- SKIPPED %s: %s\n", n, x.skipped[n])
 	}
+	// currency_gen.go (msgp codec, generated code): not translated — hand-modelled in Verif/Model/Msgp.lean; here only
+	// its shape is extracted (which msgp functions each method uses, in source order) and pinned by a theorem
+	b.WriteString(codecShape(filepath.Join(*repo, "core", "currency", "currency_gen.go")))
 	sort.Strings(emitted)
 	b.WriteString("/-- every function of currency.go that was translated (pinned by `Props/C18.generated_functions`, so a new\n    function cannot appear without a theorem) -/\ndef generatedFunctions : List String := [")
 	for i, n := range emitted {
